@@ -73,6 +73,74 @@ def value(key, v):
             "nref": float(r.uniform(1, 2) * 1e19), "tref": float(r.uniform(1, 2)), "sref": float(r.uniform(1, 2) * 1e-14)}
 
 
+INST = 9            # value id of "the tables of the synthetic ADF file" (Repository.tla: InstVal)
+FRONTS = ["adf11scd", "adf11acd", "adf11plt", "adf11prb", "adf11prc", "adf11ccd", "adf21", "adf22bmp", "adf22bme"]
+_ADF2X = {"ne": 2, "nn": 3, "ntt": 2}
+_ADF11 = {"nd": 2, "nt": 3}
+
+
+def inst_value(key):
+    """What get_* must return for a key written by an install_* front-end from the synthetic file (C08's writers)."""
+    from . import c08
+    f = key[0]
+    if f in ADF11 or f == "thermal_cx":
+        q = key[-1]
+        b = q + 1 if f in ("ionisation", "line_power") else q
+        nd, nt = _ADF11["nd"], _ADF11["nt"]
+        return {"ne": np.array([10 ** c08.dens11(i) * 1e6 for i in range(1, nd + 1)]), "te": np.array([10 ** c08.temp11(j) for j in range(1, nt + 1)]),
+                "rate": np.array([[10 ** c08.v11(b, it, idn) * 1e-6 for it in range(1, nt + 1)] for idn in range(1, nd + 1)])}
+    ne, nn, ntt = _ADF2X["ne"], _ADF2X["nn"], _ADF2X["ntt"]
+    conv = 1.0 if f == "beam_population" else 1e-6
+    return {"e": np.array([1.0e3 * (i + 1) for i in range(ne)]), "n": np.array([1.0e12 * (j + 2) * 1e6 for j in range(nn)]), "t": np.array([10.0 * (k + 1) for k in range(ntt)]),
+            "sen": np.array([[float("%9.3E" % c08.v2(i + 1, j + 1)) * conv for j in range(nn)] for i in range(ne)]),
+            "st": np.array([float("%9.3E" % c08.v2(50 + k, 0)) * conv for k in range(ntt)]),
+            "eref": 4.0e4, "nref": 6.0e13 * 1e6, "tref": 2.0e3, "sref": 5.432e-8 * conv}
+
+
+def api_install(root, e):
+    """One install_* call on a synthetic ADF file holding exactly the tables of e['keys']."""
+    from . import c08
+    from cherab.openadas import install as I
+    fr, s, d = e["front"], e["s"], e["d"]
+    adas = os.path.join(root, "_adas_files")
+    os.makedirs(adas, exist_ok=True)
+    path = os.path.join(adas, "file.dat")
+    el = _el(s)
+    try:
+        if fr.startswith("adf11"):
+            qs = sorted(k[-1] for k in e["keys"])
+            off = 1 if fr in ("adf11scd", "adf11plt") else 0
+            doc = dict(_ADF11, z=el.atomic_number, zmin=qs[0] + off, zmax=qs[-1] + off, match=True)
+            c08.write_adf11(doc, path, el.name)
+            kw = dict(repository_path=root, adas_path=adas)
+            if fr == "adf11ccd":
+                I.install_adf11ccd(_el(d), 0, el, "file.dat", **kw)
+            else:
+                getattr(I, "install_" + fr)(el, "file.dat", **kw)
+        else:
+            c08.write_adf2x(dict(_ADF2X, file=fr), path)
+            kw = dict(repository_path=root, adas_path=adas)
+            if fr == "adf21":
+                I.install_adf21(_el(d), el, 1, "file.dat", **kw)
+            elif fr == "adf22bmp":
+                I.install_adf22bmp(_el(d), 1, el, 1, "file.dat", **kw)
+            else:
+                I.install_adf22bme(_el(d), el, 1, _tr("t1", 1), "file.dat", **kw)
+    finally:
+        shutil.rmtree(adas, ignore_errors=True)
+
+
+def close_tables(a, b):
+    """equality of an installed table with the writer's numbers (text round trip: 1e-12, not bit for bit)"""
+    if not isinstance(a, dict) or set(a) != set(b):
+        return False
+    for k in b:
+        x, y = np.asarray(a[k], float), np.asarray(b[k], float)
+        if x.shape != y.shape or not np.allclose(x, y, rtol=1e-12, atol=0):
+            return False
+    return True
+
+
 def _bits(x):
     if isinstance(x, np.ndarray):
         return (x.shape, x.astype(np.float64).tobytes())
@@ -303,7 +371,7 @@ def _universe(ctx):
 
 
 def _fam_of(e):
-    return e["f"] if e["op"] in ("multi", "rejmulti") else e["k"][0]
+    return e["f"] if e["op"] in ("multi", "rejmulti", "install") else e["k"][0]
 
 
 def _compare(root, universe, e, only_family=None):
@@ -311,7 +379,7 @@ def _compare(root, universe, e, only_family=None):
     viol = []
     expect = {tuple(k): v for k, v in e["post"]}
     fam = _fam_of(e)
-    opname = f"{fam}.{e.get('api', 'update-multi')}" + (f"[reject-{e['kind']}]" if e["op"] == "reject" else "")
+    opname = (f"{fam}.install_{e['front']}" if e["op"] == "install" else f"{fam}.{e.get('api', 'update-multi')}") + (f"[reject-{e['kind']}]" if e["op"] == "reject" else "")
     for key in universe:
         if only_family and key[0] != only_family:
             continue
@@ -327,6 +395,9 @@ def _compare(root, universe, e, only_family=None):
                 viol.append({"sig": f"{opname}:phantom-key@{where}", "detail": f"never-written key {key} is readable"})
             elif ev != 0 and r[0] == "missing":
                 viol.append({"sig": f"{opname}:lost-key@{where}", "detail": f"key {key} written with value id {ev} raises RuntimeError"})
+            elif ev == INST:
+                if not close_tables(r[1], inst_value(key)):
+                    viol.append({"sig": f"{opname}:wrong-value@{where}", "detail": f"key {key}: expected the tables of the installed file, read something else"})
             elif ev != 0 and not same(r[1], value(key, ev)):
                 other = [v for v in (1, 2, 3) if v != ev and same(r[1], value(key, v))]
                 viol.append({"sig": f"{opname}:wrong-value@{where}",
@@ -354,6 +425,11 @@ def _step(root, e):
             api_multi(root, e["f"], e["w"])
         except Exception as ex:          # noqa: BLE001
             return {"sig": f"{e['f']}.update-multi:raised-{type(ex).__name__}", "detail": repr(ex)[:300]}
+    elif e["op"] == "install":
+        try:
+            api_install(root, e)
+        except Exception as ex:          # noqa: BLE001
+            return {"sig": f"{e['f']}.install_{e['front']}:raised-{type(ex).__name__}", "detail": repr(ex)[:300]}
     elif e["op"] == "reject":
         if not api_reject(root, e["k"], e["kind"], e["api"]):
             return {"unasserted": f"{e['k'][0]}.{e['api']}:accepted-invalid-{e['kind']}"}
@@ -407,6 +483,7 @@ CONSTANTS
   Families = {{"ionisation", "recombination", "line_power", "continuum_power", "cx_power", "pec_excitation", "pec_recombination", "wavelength", "thermal_cx", "pec_thermal_cx", "beam_cx", "beam_stopping", "beam_population", "beam_emission"}}
   MaxHist = {maxhist}
   MaxMulti = {maxmulti}
+  InstFronts = {fronts}
   SameFamily = {same}
 INVARIANT TypeOK
 INVARIANT LastWriteWins
@@ -431,18 +508,21 @@ def _run_edges(v, name, **kw):
     return uni[0]["universe"], edges
 
 
+ALLF = "{" + ", ".join('"%s"' % f for f in FRONTS) + "}"
+
+
 def run(v):
     shutil.rmtree(_HOME, ignore_errors=True)
     runs = []
     hd = '{"h", "d"}'
     if v.tier == "quick":
-        runs.append(("same-family-depth2", dict(species=hd, donors=hd, apis='{"add"}', maxhist=2, maxmulti=0, same="TRUE")))
-        runs.append(("cross-family-depth1", dict(species='{"h", "d", "c"}', donors=hd, apis='{"add", "update"}', maxhist=1, maxmulti=0, same="FALSE")))
-        runs.append(("pair-updates-depth1", dict(species=hd, donors=hd, apis='{"update"}', maxhist=1, maxmulti=2, same="TRUE")))
+        runs.append(("same-family-depth2", dict(species=hd, donors=hd, apis='{"add"}', maxhist=2, maxmulti=0, same="TRUE", fronts=ALLF)))
+        runs.append(("cross-family-depth1", dict(species='{"h", "d", "c"}', donors=hd, apis='{"add", "update"}', maxhist=1, maxmulti=0, same="FALSE", fronts=ALLF)))
+        runs.append(("pair-updates-depth1", dict(species=hd, donors=hd, apis='{"update"}', maxhist=1, maxmulti=2, same="TRUE", fronts="{}")))
     else:
-        runs.append(("same-family-depth2", dict(species='{"h", "d", "c"}', donors=hd, apis='{"add", "update"}', maxhist=2, maxmulti=0, same="TRUE")))
-        runs.append(("cross-family-depth1", dict(species='{"h", "d", "c"}', donors=hd, apis='{"add", "update"}', maxhist=1, maxmulti=2, same="FALSE")))
-        runs.append(("cross-family-depth2", dict(species=hd, donors='{"h"}', apis='{"add"}', maxhist=2, maxmulti=0, same="FALSE")))
+        runs.append(("same-family-depth2", dict(species='{"h", "d", "c"}', donors=hd, apis='{"add", "update"}', maxhist=2, maxmulti=0, same="TRUE", fronts=ALLF)))
+        runs.append(("cross-family-depth1", dict(species='{"h", "d", "c"}', donors=hd, apis='{"add", "update"}', maxhist=1, maxmulti=2, same="FALSE", fronts=ALLF)))
+        runs.append(("cross-family-depth2", dict(species=hd, donors='{"h"}', apis='{"add"}', maxhist=2, maxmulti=0, same="FALSE", fronts=ALLF)))
     unasserted = {}
     for name, kw in runs:
         universe, edges = _run_edges(v, name, **kw)
